@@ -867,3 +867,55 @@ func TestC01_KdfCounterBytes(t *testing.T) {
 		}
 	}, checkKdf)
 }
+
+// TestC01_SumHuge crosses the message length at which the 64-bit BIT length in
+// the padding carries out of its low 32 bits (2^29 bytes = 2^32 bits), by
+// streaming 512 MiB through one hash object with Sum checkpoints around the
+// boundary, against the streaming textbook model. (The next boundary, 2^61
+// bytes, is out of reach.)
+type hugeCase struct {
+	Pat   int // chunk contents: 0 zero bytes, 1 pseudo-random 1 MiB chunk repeated
+	Chunk int // bytes per Write
+}
+
+func TestC01_SumHuge(t *testing.T) {
+	observeTier()
+	h.Sweep(t, h.P{Name: "sum-huge", Journal: true}, func(emit func(hugeCase)) {
+		emit(hugeCase{Pat: 1, Chunk: 1 << 20})
+		if h.Thorough() {
+			emit(hugeCase{Pat: 0, Chunk: 1<<20 + 17})
+		}
+	}, func(c hugeCase, r *h.Rec) error {
+		r.Label("length>=2^29 bytes (bit length carries past 2^32)")
+		r.NT()
+		chunk := make([]byte, c.Chunk)
+		if c.Pat == 1 {
+			gen.FillInto(chunk, h.Seed+77)
+		}
+		lib := sm3.New()
+		model := ref.NewSM3Stream()
+		var n uint64
+		feed := func(k uint64) {
+			for k > 0 {
+				m := uint64(len(chunk))
+				if m > k {
+					m = k
+				}
+				lib.Write(chunk[:m])
+				model.Write(chunk[:m])
+				k -= m
+				n += m
+			}
+		}
+		const B = uint64(1) << 29
+		for _, stop := range []uint64{B - 64, B - 1, B, B + 1, B + 55, B + 56, B + 64, B + 200} {
+			feed(stop - n)
+			want := model.Sum()
+			got := lib.Sum(nil)
+			if !bytes.Equal(got, want[:]) {
+				return fmt.Errorf("SM3 of %d bytes (pattern %d): got %x want %x", n, c.Pat, got, want)
+			}
+		}
+		return nil
+	})
+}
